@@ -36,7 +36,7 @@ def plan(tier, seed):
 
 def floors(tier):
     strata = ["%s/%s" % (b, d) for b in ("svg", "tikz") for d in TL.DIRECTIONS] + ["scale:linear", "scale:time", "scale:default", "multi-layer", "single-layer",
-              "time:datetime-with-time-of-day", "time:date", "time:float", "text:xml", "text:accent", "text:cjk"]
+              "time:datetime-with-time-of-day", "time:date", "time:float", "text:xml", "text:accent", "text:cjk", "second-export-of-the-same-timeline"]
     return {"evaluations": 600, "strata": strata, "events": {"Timeline.__init__": 600, "TimelineSVG.export": 300, "TimelineTex.export": 300, "Force.compute": 600},
             "distinct_nontrivial": 100, "max_inconclusive_frac": 0.01}
 
@@ -73,6 +73,14 @@ def run_spec(ctx, mons, spec):
         case = {"spec": spec, "backend": kind}
         res = EC.export_one(spec, kind, mons)
         stratum = "%s/%s" % (kind, spec["options"].get("direction", "right"))
+        if res["exc"] is None and res.get("timeline") is not None and hash(repr(spec["data"][:2])) % 6 == 0:
+            # the same timeline object exported again: the second document is judged like the first (and must equal it)
+            first_doc = res["doc"]
+            res = EC.export_again(res, kind, mons)
+            ctx.stratum("second-export-of-the-same-timeline", generated=1, judged=1, held=1)
+            if res["exc"] is None and res["doc"] != first_doc:
+                ctx.judge(stratum, VIOLATED, case, finding=[{"rule": "second export of the same timeline differs from the first"}], key="second-export-differs")
+                continue
         if res["exc"] is not None:
             # totality is C11's claim; a crash leaves nothing to judge here
             ctx.judge(stratum, INCONCLUSIVE, case, reason="export raised %s (C11)" % res["exc"][0])
